@@ -199,13 +199,27 @@ func checkC06(r *Run) {
 			nSend++
 			okVal := false
 			var respVal ssa.Value = st.Send
+			var respVals []ssa.Value // a record filled in step by step: every value ever stored into resp
 			if flds, _, ok := compositeFields(st.Send); ok {
-				if v := flds["resp"]; v != nil {
+				if v, has := flds["resp"]; has && v != nil {
 					respVal = v
+				} else if has {
+					if u, isLoad := stripConv(st.Send).(*ssa.UnOp); isLoad {
+						if a, isA := u.X.(*ssa.Alloc); isA {
+							respVals = allFieldStores(a, "resp")
+						}
+					}
 				}
 				r.Check(flds["request"] == ssa.Value(reqParam), "reply-identity", "handler: completion names its own request", sel.Pos(), "the completion does not identify the request it belongs to")
 			}
-			for _, alt := range phiAlternatives(respVal, 3) {
+			alts := phiAlternatives(respVal, 3)
+			if len(respVals) > 0 {
+				alts = nil
+				for _, v := range respVals {
+					alts = append(alts, phiAlternatives(v, 3)...)
+				}
+			}
+			for _, alt := range alts {
 				if c, ok := alt.(*ssa.Call); ok && (calleeName(&c.Call) == "p9p.newFcall" || calleeName(&c.Call) == "p9p.newErrorFcall") {
 					okVal = true
 				} else {
@@ -306,18 +320,26 @@ func checkC06(r *Run) {
 	checkReplyBufferFresh(r, "fresh-reply-buffer")
 
 	// (5) completed branch: one forward per receive
-	cb := selectCaseBlock(sp.mainSel, sp.compCase)
+	csc := completionScope(p, sp)
 	nFwd := 0
-	if cb != nil {
-		eachInstr(sp.serve, func(in ssa.Instruction) {
+	if csc.body != nil || csc.call != nil {
+		if csc.call != nil {
+			r.SawFn(fnName(csc.fn))
+			r.Check(!reachAvoiding(csc.call.Block(), csc.call.Block(), sp.mainSel.Block()), "forward-once", "serve: the completion arm is run once per receive", csc.call.Pos(), "the completion helper is called in an inner loop")
+		}
+		eachInstr(csc.fn, func(in ssa.Instruction) {
 			sel, ok := in.(*ssa.Select)
-			if !ok || !(cb == sel.Block() || cb.Dominates(sel.Block())) {
+			if !ok || !csc.in(sel.Block()) {
 				return
 			}
 			for _, st := range sel.States {
-				if st.Dir == types.SendOnly && st.Chan == sp.responses {
+				if st.Dir == types.SendOnly && st.Chan == csc.responses {
 					nFwd++
-					r.Check(!reachAvoiding(sel.Block(), sel.Block(), sp.mainSel.Block()), "forward-once", "serve: completion forwarded at most once per receive", sel.Pos(), "the forward is in an inner loop")
+					if csc.call == nil {
+						r.Check(!reachAvoiding(sel.Block(), sel.Block(), sp.mainSel.Block()), "forward-once", "serve: completion forwarded at most once per receive", sel.Pos(), "the forward is in an inner loop")
+					} else {
+						r.Check(!inLoop(sel), "forward-once", "serve: completion forwarded at most once per receive", sel.Pos(), "the forward is in a loop")
+					}
 				}
 			}
 		})
@@ -574,14 +596,17 @@ func checkC07(r *Run) {
 	}
 	// (2)+(3) late completions
 	var fwd *ssa.Select
-	cb := selectCaseBlock(sp.mainSel, sp.compCase)
-	eachInstr(sp.serve, func(in ssa.Instruction) {
+	sc := completionScope(p, sp)
+	if sc.call != nil {
+		r.SawFn(fnName(sc.fn))
+	}
+	eachInstr(sc.fn, func(in ssa.Instruction) {
 		sel, ok := in.(*ssa.Select)
-		if !ok || cb == nil || !(cb == sel.Block() || cb.Dominates(sel.Block())) {
+		if !ok || (sc.body == nil && sc.call == nil) || !sc.in(sel.Block()) {
 			return
 		}
 		for _, st := range sel.States {
-			if st.Dir == types.SendOnly && st.Chan == sp.responses {
+			if st.Dir == types.SendOnly && st.Chan == sc.responses {
 				fwd = sel
 			}
 		}
@@ -595,7 +620,7 @@ func checkC07(r *Run) {
 	for _, cd := range condsAtInstr(fwd) {
 		nc := normCond(cd)
 		if ex, ok := nc.V.(*ssa.Extract); ok && ex.Index == 1 && nc.Truth {
-			if l, ok := ex.Tuple.(*ssa.Lookup); ok && sp.tags(l.X) {
+			if l, ok := ex.Tuple.(*ssa.Lookup); ok && sc.tags(l.X) {
 				lk = l
 				okFound = true
 			}
@@ -607,9 +632,9 @@ func checkC07(r *Run) {
 		ko := tagOwner(lk.Index)
 		okKey := false
 		if ko != nil {
-			if ko == sp.compVal {
+			if ko == sc.comp {
 				okKey = true
-			} else if o, ok := fieldOfLocalCopy(ko, "resp"); ok && o == sp.compVal {
+			} else if o, ok := fieldOfLocalCopy(ko, "resp"); ok && o == sc.comp {
 				okKey = true
 			}
 		}
@@ -623,7 +648,7 @@ func checkC07(r *Run) {
 			}
 			for _, pair := range [][2]ssa.Value{{b.X, b.Y}, {b.Y, b.X}} {
 				fromEntry := derivesFrom(pair[0], active, 4) && !isTagLoad(pair[0])
-				fromComp := derivesFromCompletion(pair[1], sp.compVal) && !isTagLoad(pair[1])
+				fromComp := derivesFromCompletion(pair[1], sc.comp) && !isTagLoad(pair[1])
 				if fromEntry && fromComp {
 					okIdent = true
 				}
@@ -632,15 +657,15 @@ func checkC07(r *Run) {
 	}
 	// the entry is deleted only for the request that completed: every delete in the completion branch is
 	// dominated by the same found+identity test as the forward
-	if cb != nil {
+	if sc.body != nil || sc.call != nil {
 		nDel := 0
-		eachInstr(sp.serve, func(in ssa.Instruction) {
+		eachInstr(sc.fn, func(in ssa.Instruction) {
 			c, ok := in.(*ssa.Call)
 			if !ok {
 				return
 			}
 			b, ok := c.Call.Value.(*ssa.Builtin)
-			if !ok || b.Name() != "delete" || !sp.tags(c.Call.Args[0]) || !(cb == c.Block() || cb.Dominates(c.Block())) {
+			if !ok || b.Name() != "delete" || !sc.tags(c.Call.Args[0]) || !sc.in(c.Block()) {
 				return
 			}
 			nDel++
@@ -648,14 +673,14 @@ func checkC07(r *Run) {
 			for _, cd := range condsAtInstr(c) {
 				nc := normCond(cd)
 				if ex, ok := nc.V.(*ssa.Extract); ok && ex.Index == 1 && nc.Truth {
-					if l, ok := ex.Tuple.(*ssa.Lookup); ok && sp.tags(l.X) {
+					if l, ok := ex.Tuple.(*ssa.Lookup); ok && sc.tags(l.X) {
 						okF = true
 					}
 				}
 				if bo, ok := nc.V.(*ssa.BinOp); ok && ((bo.Op == token.EQL && nc.Truth) || (bo.Op == token.NEQ && !nc.Truth)) && lk != nil {
 					active := resultN(lk, 0)
 					for _, pair := range [][2]ssa.Value{{bo.X, bo.Y}, {bo.Y, bo.X}} {
-						if derivesFrom(pair[0], active, 4) && !isTagLoad(pair[0]) && derivesFromCompletion(pair[1], sp.compVal) && !isTagLoad(pair[1]) {
+						if derivesFrom(pair[0], active, 4) && !isTagLoad(pair[0]) && derivesFromCompletion(pair[1], sc.comp) && !isTagLoad(pair[1]) {
 							okI = true
 						}
 					}
@@ -1243,7 +1268,8 @@ func c06OnlyServeSendsResponses(r *Run, p *Prog, sp *serveParts, rule string) {
 				continue
 			}
 			n++
-			r.Check(fn == sp.serve, rule, fnName(fn)+": replies reach the writer only through the serve loop", ss.In.Pos(),
+			// … in the serve loop itself, or in a helper that only ever runs on the serve goroutine (plain calls from it)
+			r.Check(fn == sp.serve || runsOnlyOn(p, fn, sp.serve, 0), rule, fnName(fn)+": replies reach the writer only through the serve loop", ss.In.Pos(),
 				"a reply is queued for writing from outside the serve loop: it bypasses the tag table (it can be written after its tag was flushed and acknowledged, or reused)")
 		}
 	}
@@ -1275,4 +1301,101 @@ func c06HandlerAlwaysCompletes(r *Run, sp *serveParts, rule string) {
 			"the goroutine can end without reporting a completion although the request was not cancelled: the request is never answered and its tag stays outstanding (every reuse is refused as a duplicate)")
 	}
 	r.Floor(rule, n, 1, "exits of the handler goroutine")
+}
+
+// allFieldStores: every value stored into the named field of a struct local (a record filled in step by step).
+func allFieldStores(a *ssa.Alloc, field string) []ssa.Value {
+	var out []ssa.Value
+	for _, r := range referrers(a) {
+		if fa, ok := r.(*ssa.FieldAddr); ok && fieldName(a.Type(), fa.Field) == field {
+			for _, rr := range referrers(fa) {
+				if st, ok := rr.(*ssa.Store); ok && st.Addr == ssa.Value(fa) {
+					out = append(out, st.Val)
+				}
+			}
+		}
+	}
+	return out
+}
+
+// compScope: where the completion arm of the serve loop lives — in serve itself (the region of the select case that
+// receives completions) or in a helper of the serve goroutine the arm hands the completion, the tag table and the
+// responses channel to (`c.complete(tags, responses, done)`): the helper's parameters stand for them.
+type compScope struct {
+	fn        *ssa.Function
+	body      *ssa.BasicBlock // nil: the whole function
+	comp      ssa.Value
+	responses ssa.Value
+	tags      func(v ssa.Value) bool
+	call      *ssa.Call // the delegating call in serve (nil when the arm is in serve)
+}
+
+func (sc *compScope) in(b *ssa.BasicBlock) bool {
+	return sc.body == nil || sc.body == b || sc.body.Dominates(b)
+}
+
+func completionScope(p *Prog, sp *serveParts) *compScope {
+	cb := selectCaseBlock(sp.mainSel, sp.compCase)
+	base := &compScope{fn: sp.serve, body: cb, comp: sp.compVal, responses: sp.responses, tags: sp.tags}
+	if cb == nil {
+		return base
+	}
+	direct := false
+	var deleg *ssa.Call
+	eachInstr(sp.serve, func(in ssa.Instruction) {
+		if !base.in(in.Block()) {
+			return
+		}
+		switch x := in.(type) {
+		case *ssa.Select:
+			for _, st := range x.States {
+				if st.Dir == types.SendOnly && st.Chan == sp.responses {
+					direct = true
+				}
+			}
+		case *ssa.Call:
+			g := staticCallee(&x.Call)
+			if g == nil || g.Blocks == nil || !p.InModule(g) || !runsOnlyOn(p, g, sp.serve, 0) {
+				return
+			}
+			for _, a := range x.Call.Args {
+				if stripConv(a) == stripConv(sp.responses) {
+					deleg = x
+				}
+			}
+		}
+	})
+	if direct || deleg == nil {
+		return base
+	}
+	g := staticCallee(&deleg.Call)
+	sc := &compScope{fn: g, call: deleg}
+	var tagsPrm ssa.Value
+	for i, a := range deleg.Call.Args {
+		if i >= len(g.Params) {
+			break
+		}
+		switch {
+		case stripConv(a) == stripConv(sp.responses):
+			sc.responses = g.Params[i]
+		case sp.tags(a):
+			tagsPrm = g.Params[i]
+		case a == sp.compVal:
+			sc.comp = g.Params[i]
+		default:
+			// the completion handed over as a load of its local copy
+			if u, ok := a.(*ssa.UnOp); ok && u.Op == token.MUL {
+				for _, rf := range referrers(sp.compVal) {
+					if st, ok := rf.(*ssa.Store); ok && st.Val == sp.compVal && st.Addr == u.X {
+						sc.comp = g.Params[i]
+					}
+				}
+			}
+		}
+	}
+	if sc.responses == nil || sc.comp == nil || tagsPrm == nil {
+		return base
+	}
+	sc.tags = func(v ssa.Value) bool { return v == tagsPrm }
+	return sc
 }
